@@ -93,7 +93,15 @@ PARENTS_PATTERN = [
     'match s:\n case [u], [v]: pass', 'match s:\n case (u), (v): pass', 'match s:\n case [u], v: pass',
 ]
 
-for _p in PARENTS_EXPR + PARENTS_STMT + PARENTS_PATTERN:
+# replacement fields of f-strings holding a compound expression: what the field expression starts with decides whether a space
+# has to separate it from the opening brace ('{ {a} + v}'), at any depth of the leftmost leaf
+PARENTS_FSTR = [
+    "f'{u + v}'", "f'{u.a}'", "f'{u[v]}'", "f'{u(v)}'", "f'{u if v else w}'", "f'{u, v}'", "f'{u < v}'", "f'{u or v}'",
+    "f'{x:{u + v}}'", "f'{x:{u.a}>{v}}'", "f'{u + v!r}'", "f'{u.a[v] + w:>{z}}'", "f'a{u + v}b{w}c'",
+    'f"""{u + v}\n{w.a}"""', "f'{(u + v) * w}'", "f'{f(u)(v)}'", "f'{u ** v ** w}'",
+]
+
+for _p in PARENTS_EXPR + PARENTS_STMT + PARENTS_PATTERN + PARENTS_FSTR:
     ast.parse(_p)
 
 
